@@ -59,6 +59,17 @@ public:
     return *this;
   }
 
+  /// Integral values other than bool contribute their full 64-bit value
+  /// (without this overload they silently convert to bool).
+  template <typename T>
+  typename std::enable_if<std::is_integral<T>::value &&
+                          !std::is_same<T, bool>::value,
+                          CommandSignature&>::type
+  combine(T v) {
+    value = llvm::hash_combine(value, static_cast<uint64_t>(v));
+    return *this;
+  }
+
   template <typename T>
   CommandSignature& combine(const std::vector<T>& list) {
     for (const auto& v: list) {
